@@ -107,6 +107,14 @@ CHECKS = {
             'and the response must be a normal 200; a second campaign mutates a valid cookie value structurally and freely.',
             'clock is patched from outside into the two modules that read it; lenient base64 and the whole-second expiry window allow two outcomes in narrow, stated cases',
             'DESIGN.md §4 C16'),
+    'C15': ('exploration',
+            'differential testing: scenario application with vs without the middleware(s); complete enumeration for each middleware alone, Hypothesis-drawn stacks; gzip round trip',
+            'Every built-in middleware in its default configuration, alone (all scenarios x Accept-Encoding x GET/HEAD, application '
+            'and route level: enumerated completely) and in generated stacks, is compared with the same application without it: '
+            'equal status, equal body after undoing gzip, gzip only for clients that accept it, Content-Length equal to the bytes '
+            'sent, Vary: Accept-Encoding on both variants of a compressible URL, HEAD consistent with GET.',
+            'both sides run clastic (a defect that affects both identically is invisible here; C06/C08 cover those against models); uncaught-exception pages compared by status and first line',
+            'DESIGN.md §4 C15'),
 }
 
 PENDING_REASON = 'check not built yet in this session (planned, see DESIGN.md §4); not claimed until it runs quietly on the unchanged tree'
